@@ -104,9 +104,9 @@ def mono_mul(a, b):
 
 class Poly:
     """sparse Laurent polynomial: {monomial: G}; monomial = tuple((atom, exp), ...) sorted"""
-    __slots__ = ('t',)
+    __slots__ = ('t', 'apc')
 
-    def __init__(s, t=None): s.t = t if t is not None else {}
+    def __init__(s, t=None): s.t = t if t is not None else {}; s.apc = 0          # apc: cached 'atom + constant' view (0 = not computed)
 
     @staticmethod
     def const(c):
@@ -752,6 +752,24 @@ class SBool:
 _INF = (float('inf'), float('-inf'))
 
 
+_G0 = None
+
+
+def _atom_plus_const(t):
+    """(atom, constant) when the term dictionary is  1*atom [+ constant]  else None"""
+    global _G0
+    if _G0 is None: _G0 = G(0)
+    atom = None; const = _G0
+    for m, c in t.items():
+        if m == ():
+            const = c
+        elif len(m) == 1 and m[0][1] == 1 and c.re == 1 and c.im == 0 and atom is None:
+            atom = m[0][0]
+        else:
+            return None
+    return None if atom is None else (atom, const)
+
+
 class SC:
     """symbolic complex number (Laurent polynomial in the current path's atoms)"""
     __slots__ = ('p',)
@@ -842,15 +860,19 @@ class SC:
         if isinstance(o, SC):
             # fast path: two plain atoms (coordinates, ...) -- decided without building the difference polynomial
             ta = s.p.t; tb = o.p.t
-            if len(ta) == 1 and len(tb) == 1:
-                (ma, ca), = ta.items(); (mb, cb) = next(iter(tb.items()))
-                if len(ma) == 1 and len(mb) == 1 and ma[0][1] == 1 and mb[0][1] == 1 and ca.re == 1 and cb.re == 1 and ca.im == 0 and cb.im == 0:
-                    a, b = ma[0][0], mb[0][0]
+            if len(ta) <= 2 and len(tb) <= 2:
+                pa = s.p.apc
+                if pa == 0: pa = s.p.apc = _atom_plus_const(ta)
+                pb = o.p.apc
+                if pb == 0: pb = o.p.apc = _atom_plus_const(tb)
+                if pa is not None and pb is not None and pa[1] == pb[1]:
+                    # atom + c == atom' + c  <=>  atom == atom'
+                    a, b = pa[0], pb[0]
                     if a == b: return True
                     key = (a, b) if a < b else (b, a)
                     am = CTX.extra.setdefault('atom_eq_memo', {})
                     if key in am: return am[key]
-                    r = CTX.decide_zero(s.p - o.p)
+                    r = CTX.decide_zero(Poly.atom(a) - Poly.atom(b))
                     am[key] = r
                     return r
         o2 = SC.lift(o)
@@ -928,8 +950,33 @@ class SC:
         return not CTX.decide_zero(s.p)
 
     def __round__(s, ndigits=None):
-        # coordinates / values on the modelled grid are unaffected by rounding to a fixed number of decimals
-        return s
+        """coordinates: value = rational constant + bounded noise atoms (CTX.extra['noise'] = {atom: bound}).  Rounding to `ndigits` decimals is
+        exact when the constant is farther from a tie than the total noise bound; exactly on a tie the sign of the noise decides (fork);
+        without a noise model rounding is the identity on the modelled grid"""
+        noise = CTX.extra.get('noise')
+        if noise is None or ndigits is None:
+            return s
+        c = F(0); bound = F(0); rest = Poly({})
+        for m, k in s.p.t.items():
+            if m == ():
+                if k.im != 0: raise Inconclusive('rounding a complex value')
+                c = k.re; continue
+            if len(m) == 1 and m[0][1] == 1 and m[0][0] in noise and k.im == 0:
+                bound += abs(k.re) * noise[m[0][0]]; rest = rest + Poly({m: k}); continue
+            raise Inconclusive('rounding a value that is not a constant plus bounded noise')
+        step = F(1, 10 ** ndigits) if ndigits >= 0 else F(10 ** (-ndigits))
+        q = c / step
+        lo = q.numerator // q.denominator          # floor
+        frac = q - lo
+        half = F(1, 2)
+        if abs(frac - half) * step > bound:
+            return SC.lift((lo + (1 if frac > half else 0)) * step)
+        if frac == half:
+            n = SC(rest)
+            if bool(n > 0): return SC.lift((lo + 1) * step)
+            if bool(n < 0): return SC.lift(lo * step)
+            return SC.lift((lo + (lo % 2)) * step)          # exact tie: half to even
+        raise Inconclusive('coordinate within the noise bound of a rounding tie without being on it')
 
     def __format__(s, spec):
         """formatting a symbolic number yields a placeholder token that the harness' numeral parser maps back to the value"""
